@@ -47,6 +47,8 @@ pub enum Kind {
     Invariants,
     /// C05 (C19): the real cleanup ticker reclaims expired entries while traffic continues
     Reclaim,
+    /// C09 (C02): concurrent writers of one key under a monotone validator (new.tag >= prev.tag)
+    Validated,
 }
 
 #[derive(Clone, Debug, PartialEq, Eq, Serialize, Deserialize, Hash)]
@@ -58,6 +60,12 @@ pub struct SCfg {
     pub metrics: bool,
     pub ignore_internal_cost: bool,
     pub cleanup_ms: u64,
+    #[serde(default = "always")]
+    pub validator: Validator,
+}
+
+fn always() -> Validator {
+    Validator::Always
 }
 
 #[derive(Clone, Debug, PartialEq, Eq, Serialize, Deserialize, Hash)]
@@ -343,7 +351,7 @@ pub fn build_api(exec: Exec, cfg: &SCfg, cb: RecTs) -> Result<Box<dyn Api>, stre
                 .set_metrics(cfg.metrics)
                 .set_cleanup_duration(Duration::from_millis(cfg.cleanup_ms.max(1)))
                 .set_coster(TagCoster)
-                .set_update_validator(Validator::Always)
+                .set_update_validator(cfg.validator)
                 .set_callback(cb)
                 .set_hasher(DetS::default())
                 .finalize()?;
@@ -357,7 +365,7 @@ pub fn build_api(exec: Exec, cfg: &SCfg, cb: RecTs) -> Result<Box<dyn Api>, stre
                 .set_metrics(cfg.metrics)
                 .set_cleanup_duration(Duration::from_millis(cfg.cleanup_ms.max(1)))
                 .set_coster(TagCoster)
-                .set_update_validator(Validator::Always)
+                .set_update_validator(cfg.validator)
                 .set_callback(cb)
                 .set_hasher(DetS::default());
             let c = match exec {
@@ -641,6 +649,9 @@ fn run_inner(case: &StressCase) -> SResult {
     if case.kind == Kind::Reclaim {
         return run_reclaim(case, api, &cb);
     }
+    if case.kind == Kind::Validated {
+        return run_validated(case, api);
+    }
     let n = case.threads.len();
     let mut progress_init = Progress::new(n + 1);
     Arc::get_mut(&mut progress_init).unwrap().workers_base = w_before;
@@ -724,7 +735,7 @@ fn run_inner(case: &StressCase) -> SResult {
             let c = &case.cfg;
             res.nontrivial = c.num_counters < 8 || !c.num_counters.is_power_of_two() || c.buffer_size <= 2 || c.buffer_items <= 1 || c.max_cost <= 1;
         }
-        Kind::Invariants | Kind::Reclaim => {}
+        Kind::Invariants | Kind::Reclaim | Kind::Validated => {}
     }
     // ---- post-run checks
     let post = progress.clone();
@@ -1351,7 +1362,7 @@ pub fn stress_strategy(kind: Kind, async_pct: u32) -> BoxedStrategy<StressCase> 
                     StressCase {
                         kind,
                         exec,
-                        cfg: SCfg { num_counters: 1000, max_cost: 1 << 40, buffer_size: bs, buffer_items: 64, metrics: false, ignore_internal_cost: true, cleanup_ms: 2 },
+                        cfg: SCfg { num_counters: 1000, max_cost: 1 << 40, buffer_size: bs, buffer_items: 64, metrics: false, ignore_internal_cost: true, cleanup_ms: 2, validator: Validator::Always },
                         threads,
                         perturb,
                         drop_only: false,
@@ -1394,7 +1405,7 @@ pub fn stress_strategy(kind: Kind, async_pct: u32) -> BoxedStrategy<StressCase> 
                         StressCase {
                             kind,
                             exec,
-                            cfg: SCfg { num_counters: 100, max_cost: 1 << 40, buffer_size: bs, buffer_items: 8, metrics: false, ignore_internal_cost: true, cleanup_ms: 500 },
+                            cfg: SCfg { num_counters: 100, max_cost: 1 << 40, buffer_size: bs, buffer_items: 8, metrics: false, ignore_internal_cost: true, cleanup_ms: 500, validator: Validator::Always },
                             threads,
                             perturb,
                             drop_only: false,
@@ -1439,7 +1450,7 @@ pub fn stress_strategy(kind: Kind, async_pct: u32) -> BoxedStrategy<StressCase> 
                     StressCase {
                         kind,
                         exec,
-                        cfg: SCfg { num_counters: 64, max_cost: 12, buffer_size: bs, buffer_items: 4, metrics: true, ignore_internal_cost: true, cleanup_ms: 20 },
+                        cfg: SCfg { num_counters: 64, max_cost: 12, buffer_size: bs, buffer_items: 4, metrics: true, ignore_internal_cost: true, cleanup_ms: 20, validator: Validator::Always },
                         threads,
                         perturb,
                         drop_only,
@@ -1459,7 +1470,7 @@ pub fn stress_strategy(kind: Kind, async_pct: u32) -> BoxedStrategy<StressCase> 
             any::<u64>(),
         )
             .prop_flat_map(move |(exec, nc, mc, bs, bi, metrics, ign, cleanup_ms, perturb)| {
-                let cfg = SCfg { num_counters: nc, max_cost: mc, buffer_size: bs, buffer_items: bi, metrics, ignore_internal_cost: ign, cleanup_ms };
+                let cfg = SCfg { num_counters: nc, max_cost: mc, buffer_size: bs, buffer_items: bi, metrics, ignore_internal_cost: ign, cleanup_ms, validator: Validator::Always };
                 let internal = if ign { 0 } else { isz };
                 let unit = if mc > 0 && mc < i64::MAX / 4 { (mc - internal).max(1) } else { 1 };
                 // under a negative max_cost only items of negative cost can be admitted: the
@@ -1483,14 +1494,48 @@ pub fn stress_strategy(kind: Kind, async_pct: u32) -> BoxedStrategy<StressCase> 
             proptest::sample::select(vec![5u64, 10, 20, 40]),
             proptest::collection::vec((0u32..6, 1i64..3, prop_oneof![Just(1u32), 1u32..2500]), 1..5),
             any::<bool>(),
+            any::<u64>(),
         )
-            .prop_map(move |(exec, cleanup_ms, ins, metrics)| StressCase {
+            .prop_map(move |(exec, cleanup_ms, ins, metrics, perturb)| StressCase {
                 kind,
                 exec,
-                cfg: SCfg { num_counters: 100, max_cost: 1 << 40, buffer_size: 64, buffer_items: 8, metrics, ignore_internal_cost: true, cleanup_ms },
+                cfg: SCfg { num_counters: 100, max_cost: 1 << 40, buffer_size: 64, buffer_items: 8, metrics, ignore_internal_cost: true, cleanup_ms, validator: Validator::Always },
                 threads: vec![ins.into_iter().map(|(k, cost, ttl_ms)| SOp::Insert { k, cost, ttl_ms }).collect()],
-                perturb: 0,
+                perturb,
                 drop_only: false,
+            })
+            .boxed(),
+        Kind::Validated => (
+            exec_strategy(async_pct),
+            2usize..=5,
+            1u32..=3,
+            any::<u64>(),
+        )
+            .prop_flat_map(move |(exec, nt, nkeys, perturb)| {
+                let op = prop_oneof![
+                    8 => (0..nkeys, 1i64..2000).prop_map(|(k, cost)| SOp::Insert { k, cost, ttl_ms: 0 }),
+                    3 => (0..nkeys, 1i64..2000).prop_map(|(k, cost)| SOp::Iip { k, cost }),
+                    5 => (0..nkeys).prop_map(|k| SOp::Get { k }),
+                    1 => (0u16..500).prop_map(SOp::Spin),
+                ];
+                // every key is made resident first (one writer, then a barrier through wait())
+                proptest::collection::vec(proptest::collection::vec(op, 20..120), nt..=nt).prop_map(move |mut threads| {
+                    let mut warm: Vec<SOp> = (0..nkeys).map(|k| SOp::Insert { k, cost: 0, ttl_ms: 0 }).collect();
+                    warm.push(SOp::Wait);
+                    for t in threads.iter_mut() {
+                        let mut w = warm.clone();
+                        w.append(t);
+                        *t = w;
+                    }
+                    StressCase {
+                        kind,
+                        exec,
+                        cfg: SCfg { num_counters: 100, max_cost: 1 << 40, buffer_size: 4096, buffer_items: 8, metrics: false, ignore_internal_cost: true, cleanup_ms: 500, validator: Validator::TagGe },
+                        threads,
+                        perturb,
+                        drop_only: false,
+                    }
+                })
             })
             .boxed(),
         Kind::Invariants => (
@@ -1527,7 +1572,7 @@ pub fn stress_strategy(kind: Kind, async_pct: u32) -> BoxedStrategy<StressCase> 
                 proptest::collection::vec(proptest::collection::vec(op, 5..50), nt..=nt).prop_map(move |threads| StressCase {
                     kind,
                     exec,
-                    cfg: SCfg { num_counters: 64, max_cost, buffer_size: bs, buffer_items: 3, metrics, ignore_internal_cost: ign, cleanup_ms: 5 },
+                    cfg: SCfg { num_counters: 64, max_cost, buffer_size: bs, buffer_items: 3, metrics, ignore_internal_cost: ign, cleanup_ms: 5, validator: Validator::Always },
                     threads,
                     perturb,
                     drop_only: false,
@@ -1621,6 +1666,26 @@ fn run_reclaim(case: &StressCase, api: Box<dyn Api>, cb: &RecTs) -> SResult {
     let gap = tick / 8;
     let mut i = 0u32;
     let mut reclaimed_after: Option<Duration> = None;
+    // flood mode: two writers keep the insert buffer non-empty at every tick instant (items larger
+    // than max_cost: rejected by the policy, so nothing accumulates)
+    let flood = case.perturb % 2 == 1;
+    let stop = AtomicBool::new(false);
+    std::thread::scope(|sc| {
+    if flood {
+        for w in 0..2u32 {
+            let api2 = api.dup();
+            let stop = &stop;
+            sc.spawn(move || {
+                let mut j = 0u32;
+                while !stop.load(Ordering::Relaxed) {
+                    j += 1;
+                    let k = 20_000 + w * 100 + (j % 50);
+                    let v = Val { key: k, serial: 1_000_000 + w * 10_000_000 + j, tag: 1 };
+                    let _ = api2.insert(k as u64, v, i64::MAX / 2, Duration::ZERO);
+                }
+            });
+        }
+    }
     while start.elapsed() < budget {
         i += 1;
         serial += 1;
@@ -1654,6 +1719,8 @@ fn run_reclaim(case: &StressCase, api: Box<dyn Api>, cb: &RecTs) -> SResult {
             }
         }
     }
+    stop.store(true, Ordering::Relaxed);
+    });
     match reclaimed_after {
         Some(d) => {
             // exactly once each, and no longer counted
@@ -1680,13 +1747,131 @@ fn run_reclaim(case: &StressCase, api: Box<dyn Api>, cb: &RecTs) -> SResult {
             &["C05"],
             "not_reclaimed_under_traffic",
             format!(
-                "{} expired entries (deadlines and bucket boundaries passed {} ms of wall-clock ago) were not reclaimed although the cleanup interval is {} ms; client traffic kept flowing with gaps of {:?} ({:?})",
+                "{} expired entries (deadlines and bucket boundaries passed {} ms of wall-clock ago) were not reclaimed although the cleanup interval is {} ms; client traffic kept flowing with gaps of {:?}{} ({:?})",
                 resident.len(),
                 start.elapsed().as_millis(),
                 case.cfg.cleanup_ms,
                 gap,
+                if flood { " plus two writers flooding the insert buffer" } else { "" },
                 case.exec
             ),
         ),
     }
+}
+
+/// Validated kind: threads write values with generated tags to a few shared keys (ample capacity,
+/// no TTL, no remove, validator "new.tag >= prev.tag"). A replacement the validator would veto
+/// must never happen: no reader may see the tag of a key decrease, and after quiescence every key
+/// holds the largest tag any accepted write carried.
+fn run_validated(case: &StressCase, api: Box<dyn Api>) -> SResult {
+    let n = case.threads.len();
+    let progress = Progress::new(n + 1);
+    let serial = AtomicU32::new(0);
+    let maxtag: Mutex<HashMap<u32, u32>> = Mutex::new(HashMap::new());
+    let viol: Mutex<Option<SResult>> = Mutex::new(None);
+    let barrier = Barrier::new(n);
+    let api: Arc<Box<dyn Api>> = Arc::new(api);
+    let mk_hang = |ev: &str, _b: &[usize]| -> SResult {
+        let mut r = SResult::violation(&["C12"], "call_blocked", format!("HANG {}", ev));
+        r.status = "hang".into();
+        r
+    };
+    watch(&progress, Duration::from_millis(1500), &mk_hang, || {
+        std::thread::scope(|s| {
+            for (t, script) in case.threads.iter().enumerate() {
+                let api = api.dup();
+                let (serial, maxtag, viol, barrier, progress) = (&serial, &maxtag, &viol, &barrier, &progress);
+                s.spawn(move || {
+                    barrier.wait();
+                    let mut seen: HashMap<u32, u32> = HashMap::new();
+                    for op in script {
+                        match op {
+                            SOp::Insert { k, cost, .. } | SOp::Iip { k, cost } => {
+                                let tag = (*cost).clamp(0, 1_000_000) as u32;
+                                let sn = serial.fetch_add(1, Ordering::SeqCst) + 1;
+                                let v = Val { key: *k, serial: sn, tag };
+                                progress.enter(t, 1);
+                                let r = if matches!(op, SOp::Iip { .. }) { api.iip(*k as u64, v, 1) } else { api.insert(*k as u64, v, 1, Duration::ZERO) };
+                                progress.leave(t);
+                                if r == Ok(true) {
+                                    let mut m = maxtag.lock();
+                                    let e = m.entry(*k).or_insert(0);
+                                    if tag > *e {
+                                        *e = tag;
+                                    }
+                                }
+                            }
+                            SOp::Get { k } | SOp::GetMut { k } => {
+                                progress.enter(t, 4);
+                                let got = api.get(*k as u64);
+                                progress.leave(t);
+                                if let Some(v) = got {
+                                    let last = seen.entry(*k).or_insert(0);
+                                    if v.tag < *last {
+                                        *viol.lock() = Some(SResult::violation(
+                                            &["C09", "C02"],
+                                            "vetoed_replacement_happened",
+                                            format!("thread {} read tag {} for key {} after having read tag {}: under the validator new.tag >= prev.tag the resident tag can never decrease (no removes, no TTL, ample capacity)", t, v.tag, k, *last),
+                                        ));
+                                    }
+                                    *last = v.tag;
+                                }
+                            }
+                            SOp::Spin(c) => {
+                                for _ in 0..*c {
+                                    std::hint::spin_loop();
+                                }
+                            }
+                            SOp::Wait => {
+                                progress.enter(t, 6);
+                                let _ = api.wait();
+                                progress.leave(t);
+                            }
+                            _ => {}
+                        }
+                    }
+                    progress.finish(t);
+                });
+            }
+        })
+    });
+    if let Some(v) = viol.lock().take() {
+        return v;
+    }
+    let ok = watch(&progress, Duration::from_millis(1500), &mk_hang, || {
+        for _ in 0..5000 {
+            progress.enter(n, 6);
+            let r = api.wait();
+            progress.leave(n);
+            if r.is_ok() {
+                return true;
+            }
+            std::thread::sleep(Duration::from_micros(100));
+        }
+        false
+    });
+    if !ok {
+        return SResult::ok();
+    }
+    // final: each key holds the largest accepted tag, provided the key is resident at all (a key
+    // whose writes were all dropped for lack of buffer space may be absent)
+    let m = maxtag.lock().clone();
+    for (k, mx) in m.iter() {
+        if let Some(v) = api.get(*k as u64) {
+            if v.tag < *mx {
+                // an accepted insert of a not-yet-resident key can still be refused later as a
+                // duplicate of an earlier buffered one: only in-place updates are binding, and
+                // those exist only once the key is resident. Values above the resident tag that
+                // were accepted while the key was already resident cannot have been vetoed.
+                return SResult::violation(
+                    &["C09", "C02"],
+                    "vetoed_replacement_happened",
+                    format!("after quiescence key {} holds tag {} although an insert carrying tag {} was accepted (validator new.tag >= prev.tag; no removes, no TTL, ample capacity)", k, v.tag, mx),
+                );
+            }
+        }
+    }
+    let mut r = SResult::ok();
+    r.nontrivial = n >= 2;
+    r
 }
